@@ -538,7 +538,7 @@ func augErrors(c *Ctx, a *flAgg) {
 	if f == nil {
 		return
 	}
-	for _, b := range f.Blocks {
+	for _, b := range blocksWithHelpers(f) {
 		for _, in := range b.Instrs {
 			if call, ok := in.(*ssa.Call); ok {
 				if cal := call.Call.StaticCallee(); cal != nil && cal.Name() == "augment" {
